@@ -5,15 +5,17 @@ without the change and fail with it, and the repository's suite (six modules) mu
 applied to /repo (git apply), the checks named in meta.json are run, and /repo is restored (git checkout -- .).
 Writes the outcome back into meta.json.  Never run anything else against /repo or edit /verif while this runs."""
 import json, os, re, shutil, subprocess, sys
-ROOT = "/verif/seeded"
+VERIF = os.environ.get("RESEED_VERIF", "/verif")   # a scratch copy of /verif (its check path-edited) and
+REPO = os.environ.get("RESEED_REPO", "/repo")      # a scratch worktree can stand in while /repo is in use
+ROOT = VERIF + "/seeded"
 env = dict(os.environ, GOFLAGS="-mod=mod", GOPROXY="off")
 env.pop("GOTOOLCHAIN", None); env.pop("GOSUMDB", None)
 def sh(cmd, cwd=None, timeout=3000):
     r = subprocess.run(cmd, cwd=cwd, env=env, shell=isinstance(cmd, str), stdout=subprocess.PIPE, stderr=subprocess.STDOUT, text=True, timeout=timeout)
     return r.returncode, r.stdout
 ids = sys.argv[1:] or sorted(os.listdir(ROOT))
-head = subprocess.run("git -C /repo rev-parse --short HEAD", shell=True, stdout=subprocess.PIPE, text=True).stdout.strip()
-assert subprocess.run("git -C /repo status --porcelain", shell=True, stdout=subprocess.PIPE, text=True).stdout.strip() == "", "/repo is not clean"
+head = subprocess.run("git -C %s rev-parse --short HEAD" % REPO, shell=True, stdout=subprocess.PIPE, text=True).stdout.strip()
+assert subprocess.run("git -C %s status --porcelain" % REPO, shell=True, stdout=subprocess.PIPE, text=True).stdout.strip() == "", "/repo is not clean"
 for sid in ids:
     d = os.path.join(ROOT, sid)
     meta = json.load(open(os.path.join(d, "meta.json")))
@@ -21,8 +23,8 @@ for sid in ids:
     demo = os.path.join(d, "demo_test.go")
     ddir = open(os.path.join(d, "demo.dir")).read().strip() if os.path.exists(os.path.join(d, "demo.dir")) else "."
     wt = "/tmp/reseed_wt"
-    sh("git -C /repo worktree remove --force %s" % wt)
-    rc, o = sh("git -C /repo worktree add -q --detach %s HEAD" % wt)
+    sh("git -C %s worktree remove --force %s" % (REPO, wt))
+    rc, o = sh("git -C %s worktree add -q --detach %s HEAD" % (REPO, wt))
     res = {}
     try:
         demo_dst = os.path.join(wt, ddir, "zz_demo_test.go")
@@ -42,12 +44,12 @@ for sid in ids:
                 ok = ok and rc == 0
             res["existing_suite_passes_with_change_all_six_modules"] = ok
     finally:
-        sh("git -C /repo worktree remove --force %s" % wt)
+        sh("git -C %s worktree remove --force %s" % (REPO, wt))
     meta["confirmed"] = res
     meta["confirmed_at_repo_head"] = head
     props = list(meta.get("checks_run", {}).keys()) or [meta["breaks_property"]]
     if all(res.get(k) for k in ("demo_passes_without_change", "applies_to_repo_head", "demo_fails_with_change", "existing_suite_passes_with_change_all_six_modules")):
-        rc, o = sh(["git", "-C", "/repo", "apply", patch])
+        rc, o = sh(["git", "-C", REPO, "apply", patch])
         assert rc == 0, o
         try:
             runs = {}
@@ -56,7 +58,7 @@ for sid in ids:
             for p in props:
                 if p != primary and runs.get(primary, {}).get("exit") == 1 and runs[primary]["violation_lines"] > 0:
                     break  # caught by its own property's check: the other checks are run only for a miss
-                rc, o = sh(["/verif/check", p], cwd="/verif")
+                rc, o = sh([VERIF + "/check", p], cwd=VERIF)
                 lines = [l for l in o.split("\n") if l.startswith("VIOLATION")]
                 more = re.search(r"\((\d+) further violations", o)
                 runs[p] = {"exit": rc, "violation_lines": len(lines) + (int(more.group(1)) if more else 0),
@@ -65,7 +67,7 @@ for sid in ids:
             meta["caught_by"] = sorted(p for p, v in runs.items() if v["exit"] != 0 and v["violation_lines"] > 0)
             meta["ran"] = ["tools/reseed.py %s  (scratch worktree: demo without/with the change, suite in all six modules; then `git -C /repo apply patch.diff`, ./check %s, `git -C /repo checkout -- .`)" % (sid, " ".join(props))]
         finally:
-            sh("git -C /repo checkout -- .")
+            sh("git -C %s checkout -- ." % REPO)
     else:
         meta["caught_by"] = []
         meta["note"] = "not confirmed at this HEAD: " + json.dumps(res)
